@@ -160,6 +160,11 @@ package transports
 
 // ---- polling discipline (C11), payload limit (C10) --------------------------------------------------------
 //@ func (*polling).onPollRequest(ctx)
+// the outstanding poll and data request are recorded and cleared by the request handlers and the writer only; the pending
+// close by DoClose, the poll handler and the sender only
+//@   census [C11.req.census] (*polling).req written only by (*polling).onPollRequest, (*polling).write
+//@   census [C11.datactx.census] (*polling).dataCtx written only by (*polling).DoClose, (*polling).onDataRequest
+//@   census [C12.shouldclose.census] (*polling).shouldClose written only by (*polling).DoClose, (*polling).onPollRequest, (*polling).send
 //@   props C11, C12
 //@   requires p != nil && p.Transport != nil && ctx != nil && ctx.response != nil && ctx.ResponseHeaders != nil && ctx.EventEmitter != nil
 //@   modifies *
@@ -176,6 +181,24 @@ package transports
 // carries a pending close goes out only if writability was re-examined after the event and still holds
 //@   callsite (*polling).Send#1
 //@     assert [C12.stillwritable,C01.oneinflight] calls(Transport.Writable) == 1 && ret(Transport.Writable, 1) && before(types.EventEmitter.Emit, 1, Transport.Writable, 1) && p.shouldClose.v != nil
+
+// closing a polling transport (C12): an unfinished data request is answered 429 first; then, by decision table - writable:
+// the close packet is sent and the transport closes now; discarded: it closes now without sending; otherwise the close is
+// buffered (picked up by the next poll) under the fixed close timeout. DoClose is reached from send callbacks and from the
+// "headers" and "drain" listeners, which run inside the polling write with the writer's lock held: it takes no lock itself.
+//@ func (*polling).DoClose(fn)
+//@   props C12, C18
+//@   requires p != nil && p.Transport != nil
+//@   requires p.dataCtx.v != nil ==> deref((*types.HttpContext)(p.dataCtx.v)).response != nil && deref((*types.HttpContext)(p.dataCtx.v)).ResponseHeaders != nil
+//@   dyncall fn noeffect
+//@   modifies *
+//@   let w = ret(Transport.Writable, 1)
+//@   ensures [C18.pollclose.nolock,C12.pollclose.nolock] calls((*sync.Mutex).Lock) == 0 && calls((*sync.RWMutex).Lock) == 0
+//@   ensures [C12.pollclose.now]       w ==> calls((*polling).Send) == 1 && len(arg((*polling).Send, 1, packets)) == 1 && calls((*polling).OnClose) == 1 && before((*polling).Send, 1, (*polling).OnClose, 1) && calls(utils.SetTimeout) == 0
+//@   ensures [C12.pollclose.discarded] !w && ret(Transport.Discarded, 1) ==> calls((*polling).Send) == 0 && calls((*polling).OnClose) == 1 && calls(utils.SetTimeout) == 0
+//@   ensures [C12.pollclose.deferred]  !w && !ret(Transport.Discarded, 1) ==> calls((*polling).Send) == 0 && calls((*polling).OnClose) == 0 && calls(utils.SetTimeout) == 1 && arg(utils.SetTimeout, 1, sleep) == p.closeTimeout && p.shouldClose.v != nil
+//@   callsite (*polling).Send#1
+//@     assert [C12.pollclose.packet] len($packets) == 1 && $packets[0] != nil && $packets[0].Type == packet.CLOSE
 
 //@ func (*polling).onDataRequest(ctx)
 //@   props C11, C10, C02
@@ -385,7 +408,7 @@ package transports
 //@   ensures [C16.compressfail] calls((*polling).compress) == 1 && ret((*polling).compress, 1, 1) != nil ==> calls(respond) == 0 && calls((*types.HttpContext).Write) == 1 && arg((*types.HttpContext).SetStatusCode, 1, statusCode) == 500 && calls(callback) == 1 && arg(callback, 1, 0) == ret((*polling).compress, 1, 1)
 //@   ensures [C16.oneanswer]  calls(respond) + calls((*types.HttpContext).Write) == 1
 //@   callsite utils.NewParameterBag#1
-//@     assert [C16.ctype]     maphas($parameters, "Content-Type") && len(mapval($parameters, "Content-Type")) == 1 && mapval($parameters, "Content-Type")[0] == (typeis(data, *types.StringBuffer) ? "text/plain; charset=UTF-8" : "application/octet-stream")
+//@     assert [C16.ctype,C01.poll.kind]     maphas($parameters, "Content-Type") && len(mapval($parameters, "Content-Type")) == 1 && mapval($parameters, "Content-Type")[0] == (typeis(data, *types.StringBuffer) ? "text/plain; charset=UTF-8" : "application/octet-stream")
 //@   callsite respond#1
 //@     assert [C16.length.plain]     $length == ret(strconv.Itoa, 1) && arg(strconv.Itoa, 1, i) == ret(types.BufferInterface.Len, 1) && arg(types.BufferInterface.Len, 1, this) == $data
 //@   callsite respond#2
@@ -475,11 +498,21 @@ package transports
 
 // one frame / one payload element = one decode = one packet event
 //@ func (*transport).OnData(data)
+// write-site censuses: the flags and the negotiated parameters of a transport have one setter each
+//@   census [C01.writable.census,C03.writable.census] (*transport)._writable written only by (*transport).SetWritable
+//@   census [C08.discard.census,C12.discard.census] (*transport)._discarded written only by (*transport).Discard
+//@   census [C10.limit.census] (*transport).maxHttpBufferSize written only by (*transport).SetMaxHttpBufferSize
+//@   census [C06.params.census,C09.params.census] (*transport).parser, (*transport).protocol written only by (*transport).Construct
+//@   census [C06.binary.census] (*transport).supportsBinary written only by (*transport).Construct, (*transport).SetSupportsBinary
 //@   props C02
 //@   requires tOK(t) && t.parser != nil
 //@   modifies nothing
 //@   ensures [C02.t.one] calls(parser.Parser.DecodePacket) == 1 && arg(parser.Parser.DecodePacket, 1, data) == iface(data)
 //@   ensures [C02.t.onepacket] calls((*transport).OnPacket) == 1 && arg((*transport).OnPacket, 1, packet) == ret(parser.Parser.DecodePacket, 1, 0)
+// an undecodable frame is not swallowed and not turned into a transport error here: the decoder's error packet goes to the
+// packet listeners like any other packet - that is what lets the session close with reason "parse error" and what lets
+// an upgrade in progress notice garbage on the candidate and give the candidate up
+//@   ensures [C03.t.parseerror,C08.t.garbage] calls((*transport).OnPacket) == 1 && calls((*transport).OnError) == 0 && calls(Transport.OnError) == 0 && nevents() == 2
 //@ func (*transport).OnPacket(packet)
 //@   props C02, C09
 //@   requires tOK(t)
@@ -523,7 +556,7 @@ package transports
 //@   requires t != nil && ctxOK(ctx)
 //@   modifies t.parser, t.protocol, t.supportsBinary
 //@   let eio4 = uf_b_has(ctx.query, "EIO", ctx.query.$bagver) && uf_s_peek(ctx.query, "EIO", ctx.query.$bagver) == "4"
-//@   ensures [C06.t.parser] (eio4 ==> t.parser == ret(parser.Parserv4, 1)) && (!eio4 ==> t.parser == ret(parser.Parserv3, 1))
+//@   ensures [C06.t.parser,C09.revisionagrees] (eio4 ==> t.parser == ret(parser.Parserv4, 1)) && (!eio4 ==> t.parser == ret(parser.Parserv3, 1))
 //@   ensures [C06.t.rev]    t.protocol == ret(parser.Parser.Protocol, 1) && arg(parser.Parser.Protocol, 1, this) == t.parser
 //@   ensures [C06.t.b64]    t.supportsBinary == !uf_b_has(ctx.query, "b64", ctx.query.$bagver)
 
